@@ -136,8 +136,16 @@ class Evolver:
         if depth < 2:
             kinds += ["array", "map", "tuple", "ornull"]
             if allow_literal:
-                kinds += ["literal"]
+                kinds += ["literal", "array-literal", "ornull-literal"]
         k = force or self.pick(kinds)
+        if k in ("array-literal", "ornull-literal"):
+            local: set = set()
+            props = [self.new_property(local, depth + 2, allow_literal=False, optional=(i >= 2)) for i in range(self.draw(st.integers(2, 3)))]
+            lit = {"kind": "literal", "value": {"properties": props}}
+            if k == "array-literal":
+                return {"kind": "array", "element": lit}
+            items = [lit, {"kind": "base", "name": "null"}]
+            return {"kind": "or", "items": items if self.draw(st.booleans()) else items[::-1]}
         if k in ("ornull-first", "ornull-last"):
             inner = self.simple_type(depth + 1, allow_literal)
             while inner["kind"] == "or":
@@ -285,7 +293,8 @@ class Evolver:
             "matrix", "same-name-different-nullness", "shared-registration-method"]
     RUST_AND_PYTHON_KEYWORDS = ["in", "for", "as", "if", "else", "while", "continue", "break", "return", "async", "await", "try", "yield"]
 
-    MATRIX_PRODUCTIONS = ["base", "ref-struct", "ref-enum", "ref-alias", "array", "map", "tuple", "ornull-first", "ornull-last", "literal"]
+    MATRIX_PRODUCTIONS = ["base", "ref-struct", "ref-enum", "ref-alias", "array", "map", "tuple", "ornull-first", "ornull-last", "literal",
+                          "array-literal", "ornull-literal"]
 
     def e_matrix(self) -> None:
         """new structures whose properties cover every pair (name kind x type production x required/optional):
